@@ -663,6 +663,32 @@ def oracle(run, deep):
         swept += 1 if done else 0
     run.count("sweep:definitions", swept)
     run.note("registry sweep: %d definitions, %d swept" % (len(defs), swept))
+    convention_check(run)
+
+
+def convention_check(run):
+    """Keyword names follow the naming convention of the context the function is registered in - also when another
+    context with another convention was created earlier in the same process (fresh interpreter per creation order)."""
+    import json
+    import os
+    import subprocess
+    import sys
+    helper = os.path.join(os.path.dirname(os.path.dirname(os.path.abspath(__file__))), "c12_conventions.py")
+    for order in ("py-first", "camel-first"):
+        try:
+            p = subprocess.run([sys.executable, "-W", "ignore", helper, order], capture_output=True, text=True, timeout=300,
+                               env=dict(os.environ))
+            problems = json.loads(p.stdout.strip().split("\n")[-1])
+        except Exception as e:
+            run.note("convention check (%s) could not be run: %r" % (order, e))
+            continue
+        run.case(("conventions", order), nontrivial=True)
+        run.count("convention_orders")
+        if problems:
+            run.fail("violation", "the keyword name of a parameter is not the convention-translated name of the context it is "
+                                  "registered in (two contexts with different conventions in one process)",
+                     {"creation_order": order, "problems": problems[:8], "n_problems": len(problems)})
+            return
 
 
 def replay(run, data):
